@@ -87,7 +87,7 @@ fn c15_extremes(seed: u64) -> Scenario {
     g::extremes(seed, "c15_extremes")
 }
 
-pub const ALL: &[&str] = &["C01", "C02", "C03", "C04", "C05", "C06", "C07", "C08", "C09", "C11", "C12", "C13", "C14", "C15", "C16", "C17", "C18", "C19"];
+pub const ALL: &[&str] = &["C01", "C02", "C03", "C04", "C05", "C06", "C07", "C08", "C09", "C10", "C11", "C12", "C13", "C14", "C15", "C16", "C17", "C18", "C19"];
 
 pub fn families(property: &str) -> Vec<Family> {
     match property {
@@ -115,6 +115,7 @@ pub fn families(property: &str) -> Vec<Family> {
         "C07" => vec![Family { fault_free: true, ..fam("peer_sender_exact", ps_exact, 40_000, 1_000_000) }],
         "C08" => vec![fam("c08_cycles", g::c08_cycles, 8_000, 200_000)],
         "C09" => vec![fam("c09_isn", g::c09_isn, 25_000, 600_000), Family { fault_free: true, ..fam("c09_wide", g::c09_wide, 150, 5_000) }],
+        "C10" => vec![Family { fault_free: true, ..fam("c10_hostile", g::c10_hostile, 20_000, 500_000) }],
         "C12" => vec![fam("c12_many", g::c12_many, 12_000, 300_000)],
         "C13" => vec![fam("c13_pairing", g::c13_pairing, 12_000, 300_000)],
         "C11" => vec![fam("c11_corrupt", g::c11_corrupt, 20_000, 500_000), fam("c11_unknown_ext", g::c11_unknown_ext, 10_000, 300_000), fam("c01_duplex", c01_duplex, 10_000, 200_000)],
@@ -193,6 +194,7 @@ pub fn oracle(property: &str) -> OracleFn {
         "C07" => oracles::c07::check,
         "C08" => oracles::c08::check,
         "C09" => oracles::c09::check,
+        "C10" => oracles::c10::check,
         "C11" => c11_oracle,
         "C12" => oracles::c12::check,
         "C13" => oracles::c13::check,
@@ -218,6 +220,7 @@ pub fn expected_probes(property: &str) -> Vec<&'static str> {
         "C08" => vec!["connection_tasks_created", "letgo_judged", "closing_packet_lost", "cancel_or_kill", "task_failed_with_error", "too_many_active_connections_seen"],
         "C09" => vec!["shifted_run_seq_wrapped", "shifted_run_conn_id_wrapped", "shifted_run_data_packets"],
         "C11" => vec!["emitted_datagrams_checked", "emitted_with_extension", "verdicts_accept_corrupted", "verdicts_reject_corrupted", "unknown_extension_delivered"],
+        "C10" => vec!["hostile_datagrams_sent", "target_parser_rejections", "target_parser_acceptances", "honest_connections_completed", "attacker_connection_established", "direct_attack_on_honest_connection"],
         "C12" => vec!["max_live_connections_on_one_socket", "connections_established", "connections_completed_in_loss_free_runs", "connects_refused_at_the_limit"],
         "C13" => vec!["max_backlog_seen", "backlog_filled", "syns_refused_with_reset", "hand_overs_judged_for_order", "connects_ok", "connects_cancelled", "accepts_cancelled", "duplicate_syn_delivered", "connect_failed_for_lack_of_slot"],
         "C14" => vec!["probes_acked", "probes_failed_and_resegmented", "converged_transfers"],
@@ -243,6 +246,7 @@ pub fn rule(property: &str) -> String {
         "C08" => "relevance probe: at least one closing packet (FIN/RESET) was lost and at least one let-go connection was judged against its bound.",
         "C09" => "relevance probe: in the shifted run a data/FIN sequence number actually wrapped past 65535 (each case is a PAIR of runs: base numbers and shifted numbers).",
         "C11" => "relevance probe: at least one corrupted datagram reached a real socket's parser (verdict recorded) and at least one emitted datagram was checked.",
+        "C10" => "relevance probe: at least one hostile datagram was injected (hostile datagrams are the faults of this family; the network itself is loss-free so that honest connections must complete).",
         "C12" => "relevance probe: at least two connections were established (connect Ok and surfaced at an accept) in the run.",
         "C13" => "relevance probe: at least two connects surfaced at accept calls in the run.",
         "C14" => "relevance probe: at least one MTU probe was acknowledged and at least one failed and was re-segmented.",
